@@ -41,18 +41,18 @@ nothing else — validators, guards, exit, enter and after callbacks do not occu
 theorem C14_result {m : Machine} {t : Trigger} {act : CbId → Act} (B : Beh m t act) (tr : Transn)
     (hv : firstRaise act tr.validators = none)
     (hg : ∀ p ∈ tr.conds, (act p.1).raises = none)
-    (hp : guardsPass m.truthy act tr.conds = true)
+    (hp : guardsPass m act tr.conds = true)
     (ha : ∀ cb ∈ actionCbs m t.event tr, (act cb).raises = none) (c : Cfg) :
     (activate nestedRtc m t tr c).2 =
-      .ok (some (unwrap (((applicable t.event tr.before).map fun cb => (act cb).ret) ++
-                         ((applicable t.event tr.on).map fun cb => (act cb).ret)))) :=
+      .ok (some (unwrap (((applicable t.event tr.before).map fun cb => rtcRet m (act cb)) ++
+                         ((applicable t.event tr.on).map fun cb => rtcRet m (act cb))))) :=
   (activate_fire B tr hv hg hp ha c).1
 
 /-- a rejected candidate contributes nothing -/
 theorem C14_rejected_none {m : Machine} {t : Trigger} {act : CbId → Act} (B : Beh m t act) (tr : Transn)
     (hv : firstRaise act tr.validators = none)
     (hg : ∀ p ∈ tr.conds, (act p.1).raises = none)
-    (hp : guardsPass m.truthy act tr.conds = false) (c : Cfg) :
+    (hp : guardsPass m act tr.conds = false) (c : Cfg) :
     (activate nestedRtc m t tr c).2 = .ok none :=
   (activate_reject B tr hv hg hp c).1
 
